@@ -179,7 +179,9 @@ pub struct Gc<T: Default + Reset + Traceable> {
     /// This prevents use-after-free when Gc outlives the Space (e.g., during interpreter shutdown)
     space: Weak<RefCell<Space<T>>>,
 
-    #[cfg(feature = "verif-hooks")]
+    /// Generation of the slot when this handle was created. The slot's generation is bumped
+    /// every time the slot is pooled, so a handle that outlived its object (a stale handle)
+    /// can be told apart from handles to the slot's next tenant.
     generation: u32,
 }
 
@@ -210,6 +212,16 @@ impl<T: Default + Reset + Traceable> Gc<T> {
         #[cfg(feature = "verif-hooks")]
         self.verif_check("borrow_mut");
         unsafe { self.ptr.as_ref().data.borrow_mut() }
+    }
+
+    /// True if this handle still refers to the object it was created for, i.e. the slot has
+    /// not been pooled (and possibly handed out again) since.
+    ///
+    /// SAFETY: the caller must have checked that the space is alive (ptr is not dangling).
+    #[inline]
+    fn is_current(&self) -> bool {
+        let gc_box = unsafe { self.ptr.as_ref() };
+        !gc_box.pooled.get() && gc_box.generation.get() == self.generation
     }
 
     #[cfg(feature = "verif-hooks")]
@@ -267,9 +279,10 @@ impl<T: Default + Reset + Traceable> Clone for Gc<T> {
     fn clone(&self) -> Self {
         // Increment ref_count (only if space is still alive)
         if let Some(_space) = self.space.upgrade() {
-            let gc_box = unsafe { self.ptr.as_ref() };
-            // Only increment if not pooled
-            if !gc_box.pooled.get() {
+            // Only increment if this handle still owns a reference: not pooled, and the
+            // slot has not been handed out to a new tenant (stale handles count nothing)
+            if self.is_current() {
+                let gc_box = unsafe { self.ptr.as_ref() };
                 gc_box.ref_count.set(gc_box.ref_count.get() + 1);
             }
         }
@@ -278,7 +291,6 @@ impl<T: Default + Reset + Traceable> Clone for Gc<T> {
         Self {
             ptr: self.ptr,
             space: self.space.clone(),
-            #[cfg(feature = "verif-hooks")]
             generation: self.generation,
         }
     }
@@ -296,19 +308,17 @@ impl<T: Default + Reset + Traceable> Drop for Gc<T> {
         // Now safe to access the GcBox
         let gc_box = unsafe { self.ptr.as_ref() };
 
-        // Check if this Gc is from a different generation (object was reused)
-        // In that case, don't affect ref_count - this Gc is stale
-        // if gc_box.generation.get() != self.generation {
-        //     return;
-        // }
-
         if gc_box.pooled.get() {
             return;
         }
 
-        #[cfg(feature = "verif-hooks")]
+        // Check if this Gc is from a different generation (the slot was pooled and handed
+        // out again). In that case don't touch ref_count - this Gc is stale and the count
+        // belongs to the new tenant.
         if gc_box.generation.get() != self.generation {
-            crate::verif_hooks::stale_event("drop-onto-new-tenant");
+            #[cfg(feature = "verif-hooks")]
+            crate::verif_hooks::stale_event("drop-of-stale-handle-after-slot-reuse");
+            return;
         }
 
         let count = gc_box.ref_count.get();
@@ -380,11 +390,9 @@ pub struct GcBox<T: Default + Reset + Traceable> {
     /// Whether this object is in the pool (dead)
     pooled: Cell<bool>,
 
-    #[cfg(feature = "verif-hooks")]
+    /// Generation counter - incremented each time the slot is pooled.
+    /// Old Gc pointers with different generations don't affect ref_count or guard roots.
     generation: Cell<u32>,
-    // Generation counter - incremented each time slot is reused from pool.
-    // Old Gc pointers with different generations don't affect ref_count.
-    // generation: Cell<u32>,
 }
 
 impl<T: Default + Reset + Traceable> GcBox<T> {
@@ -394,9 +402,7 @@ impl<T: Default + Reset + Traceable> GcBox<T> {
             data: RefCell::new(data),
             ref_count: Cell::new(0),
             pooled: Cell::new(false),
-            #[cfg(feature = "verif-hooks")]
             generation: Cell::new(0),
-            // generation: Cell::new(0),
         }
     }
 }
@@ -578,7 +584,6 @@ impl<T: Default + Reset + Traceable> Space<T> {
         Gc {
             ptr,
             space: self.self_weak.clone(),
-            #[cfg(feature = "verif-hooks")]
             generation: unsafe { ptr.as_ref() }.generation.get(),
         }
     }
@@ -599,11 +604,10 @@ impl<T: Default + Reset + Traceable> Space<T> {
 
         // Mark as pooled (reset already called in sweep or will be called on reuse)
         gc_box.pooled.set(true);
+        // Invalidate every handle that still points at this slot
+        gc_box.generation.set(gc_box.generation.get().wrapping_add(1));
         #[cfg(feature = "verif-hooks")]
-        {
-            gc_box.generation.set(gc_box.generation.get().wrapping_add(1));
-            crate::verif_hooks::count_swept();
-        }
+        crate::verif_hooks::count_swept();
 
         // Add pointer to pool for reuse
         self.free_list.push(ptr);
@@ -923,8 +927,9 @@ impl<T: Default + Reset + Traceable> Guard<T> {
     /// This keeps the object alive as long as the guard exists.
     pub fn guard(&self, obj: Gc<T>) {
         if let Some(_space) = self.space.upgrade() {
-            let gc_box = unsafe { obj.ptr.as_ref() };
-            if !gc_box.pooled.get() {
+            // A stale handle (object collected, slot pooled or already handed out again)
+            // must not root anything - in particular not the slot's new tenant
+            if obj.is_current() {
                 self.inner.roots.borrow_mut().push(obj.ptr);
             }
         }
@@ -933,6 +938,10 @@ impl<T: Default + Reset + Traceable> Guard<T> {
     /// Remove an object from this guard's roots.
     /// Returns true if the object was found and removed.
     pub fn unguard(&self, obj: &Gc<T>) -> bool {
+        // A stale handle must not remove the root of the slot's new tenant
+        if self.space.upgrade().is_some() && !obj.is_current() {
+            return false;
+        }
         let mut roots = self.inner.roots.borrow_mut();
         if let Some(pos) = roots.iter().position(|p| *p == obj.ptr) {
             roots.swap_remove(pos);
